@@ -4,7 +4,7 @@ exclusively owned objects / M4 copy loop and retire loop agree.  (M5 = T1, evalu
 from collections import deque
 
 from .analysis import flow, reach, after, entry, Point, regions, back_edges, loop_blocks, cond_of, is_view, succ_points, value_chains
-from .anchors import anchors, callee_str, is_shared_write, is_link_load, receiver_field, is_reclaim_atomic
+from .anchors import anchors, callee_str, is_shared_write, is_link_load, receiver_field, is_reclaim_atomic, is_fresh_alloc
 from .callgraph import callgraph
 from .facts import strip_generics, op_root, op_local, place_fields
 
@@ -383,7 +383,7 @@ def rule_m3(ctx, facts):
                 if r[0] == "call":
                     rc = b.call_at(r[1])
                     s = callee_str(rc)
-                    if s.endswith("reclaim::Shared::boxed") or s.endswith("reclaim::Shared::null"):
+                    if is_fresh_alloc(b, rc) or s.endswith("reclaim::Shared::null"):
                         continue
                     if an.is_free(rc) is not None:
                         continue  # moved out of a Box this body already owns (the earlier free is judged on its own)
@@ -393,7 +393,7 @@ def rule_m3(ctx, facts):
                         if ("reclaim::CompareExchangeError", "new") in fields and ("reclaim::CompareExchangeError", "current") not in fields:
                             newl = op_root(rc.args[3 if s.endswith("cas_bin") else 2])
                             nroots, _ = fl.roots(newl) if newl is not None else (set(), None)
-                            if all(callee_str(b.call_at(q[1])).endswith("Shared::boxed") for q in nroots if q[0] == "call") and nroots:
+                            if all(is_fresh_alloc(b, b.call_at(q[1])) for q in nroots if q[0] == "call") and nroots:
                                 continue
                         bad.append("CAS result (not the private `new` of a failed CAS)")
                         continue
